@@ -8,7 +8,7 @@ NOTE_COMMON = ("Trusted: go/parser, go/types, go/ssa, go/packages (x/tools v0.29
                "contracts of the wrapped standard-library primitives; the rule tables in /verif/checker. Fails closed: an idiom the rules do not "
                "recognise, an anchor that no longer resolves, or a tree that does not type-check is reported, never passed silently. "
                "Dependency closure (every check): each function of the module that the examined code calls - in whatever file or package - is itself "
-               "examined by a rule of the same check (helpers through their own helper rule, re-run there), or the check fails.")
+               "examined by a rule of the same check (helpers through their own helper rule, re-run there), or the check fails. Guard order (every check): no examined function evaluates a partial operation - index, slice, make, integer division, dereference, call of a function value - before the test, on the same path, under which it is defined, nor on a path whose earlier conditions contradict its definedness (rule guard-precedes-use).")
 
 CLAIMS = {
  "C06": dict(cat="translation_validation", sec="4 C06 / E6",
